@@ -192,6 +192,9 @@ pub fn run(cfg: &Cfg, rep: &mut Rep) {
     let lats: Vec<Vec<i128>> = SCALES.iter().map(|s| gen::reading_lattice(*s, &w.leap)).collect();
     let mut i = 0usize;
     for (si, s) in SCALES.iter().enumerate() {
+        if cfg.fuzz {
+            break;
+        }
         for &c in &lats[si] {
             i += 1;
             if i % n == sh {
@@ -202,7 +205,7 @@ pub fn run(cfg: &Cfg, rep: &mut Rep) {
     // all offsets x random base, with and without fraction
     for m in -(23 * 60 + 59)..=(23 * 60 + 59) {
         i += 1;
-        if i % n != sh {
+        if i % n != sh || cfg.fuzz {
             continue;
         }
         let c = gen::rand_reading(&mut r, TimeScale::UTC, &lats[4]);
@@ -214,6 +217,9 @@ pub fn run(cfg: &Cfg, rep: &mut Rep) {
         check_text(rep, &f, 0, if m % 2 == 0 { 'T' } else { ' ' }, Some(m), false, if m % 3 == 0 { Some(SCALES[(m.rem_euclid(9)) as usize]) } else { None });
     }
     for form in ["JD", "MJD", "SEC"] {
+        if cfg.fuzz {
+            break;
+        }
         for s in NUM_SCALES {
             for x in [0.0, 0.5, 1.0, 15020.0, 51544.5, 2451545.0, 2415020.5, 2400000.5, 60000.25, 1e9, 17.2, 66312032.18493909, -1000.5] {
                 i += 1;
@@ -229,6 +235,7 @@ pub fn run(cfg: &Cfg, rep: &mut Rep) {
     }
     let nrand = cfg.budget(1_500_000);
     for k in 0..nrand {
+        let k = cfg.k(k, &mut r);
         let si = r.below(9) as usize;
         let s = SCALES[si];
         let c = gen::rand_reading(&mut r, s, &lats[si]);
